@@ -229,6 +229,16 @@ Definition demerge1 (k : N) (r : urec) : list urec :=
   end.
 Definition demerge (k : N) (l : list urec) : list urec := flat_map (demerge1 k) l.
 
+(* obidemerge -d key:weight : the slot is merged_<key:weight> (code k), the values go back to the attribute key (code a);
+   [demerge1 k = demerge1w k k] (Proofs.demerge1w_same) *)
+Definition demerge1w (a k : N) (r : urec) : list urec :=
+  match lookup k (umerged r) with
+  | Some m => map (fun vw => mkrec (useq r) (clamp1 (snd vw))
+                                   ((a, strval (fst vw)) :: mremove a (uann r)) (mremove k (umerged r))) m
+  | None => [r]
+  end.
+Definition demergew (a k : N) (l : list urec) : list urec := flat_map (demerge1w a k) l.
+
 (** ---------- projection compared with the implementation *)
 Record uout := mkout {
   oseq : list N; ocats : list N; ocount : Z; omerged : list (N * stats); oann : list (N * (N * N))   (* key |-> (tag, exact) *)
@@ -287,7 +297,7 @@ Record ccase := mkcase {
 
 Definition run_case (c : ccase) : option (list uout) :=
   if c_op c =? 1 then
-    Some (map (project (c_na c) [] (c_stats c)) (demerge (hd 0 (c_stats c)) (c_recs c)))
+    Some (map (project (c_na c) [] (c_stats c)) (demergew (fst (ds_of (c_ds c) (hd 0 (c_stats c)))) (hd 0 (c_stats c)) (c_recs c)))
   else
     match uniq_run sum_hash (c_chunks c) (c_cats c) (ds_of (c_ds c)) (c_stats c) (c_na c) (c_nosingleton c) (c_recs c) with
     | None => None
@@ -312,3 +322,142 @@ Fixpoint mismatches_from (i : nat) (l : list ccase) : list nat :=
        end then rest else i :: rest
   end.
 Definition mismatches := mismatches_from 0.
+
+(** ====================================================================================================
+    Round 3 — the pieces below IUniqueSequence, modelled one by one and compared with the real functions. *)
+
+(** ---------- the class-code tables of AnnotationClassifier / SequenceClassifier.
+    decode table = the values in order of first appearance; the code of a value is its position
+    ("k = maxcode; maxcode++; encode[val] = k; decode = append(decode, val)"); Reset = the empty table
+    (codes restart at 0); Clone = a classifier with an empty table. *)
+Fixpoint index_of (v : list N) (tbl : list (list N)) : option nat :=
+  match tbl with
+  | [] => None
+  | w :: t => if lN_eqb v w then Some 0%nat else option_map S (index_of v t)
+  end.
+
+(* Code(): the code of value v and the table afterwards *)
+Definition code1 (tbl : list (list N)) (v : list N) : nat * list (list N) :=
+  match index_of v tbl with Some k => (k, tbl) | None => (length tbl, tbl ++ [v]) end.
+
+(* the codes of the values vs, coded one after the other from table tbl; the table afterwards *)
+Fixpoint encode_from (tbl : list (list N)) (vs : list (list N)) : list nat :=
+  match vs with
+  | [] => []
+  | v :: t => fst (code1 tbl v) :: encode_from (snd (code1 tbl v)) t
+  end.
+Fixpoint table_after (tbl : list (list N)) (vs : list (list N)) : list (list N) :=
+  match vs with
+  | [] => tbl
+  | v :: t => table_after (snd (code1 tbl v)) t
+  end.
+
+(* Value(k) *)
+Definition cvalue (tbl : list (list N)) (k : nat) : option (list N) := nth_error tbl k.
+
+(* a history of calls on one classifier object.  [SValue j] decodes the code returned by step j. *)
+Inductive cstep := SCode (v : list N) | SValue (j : nat) | SReset.
+Inductive cobs := OCode (k : nat) | OVal (v : option (list N)) | ONone.
+
+Fixpoint run_hist (tbl : list (list N)) (codes : list (option nat)) (h : list cstep) : list cobs :=
+  match h with
+  | [] => []
+  | SCode v :: t => OCode (fst (code1 tbl v)) :: run_hist (snd (code1 tbl v)) (codes ++ [Some (fst (code1 tbl v))]) t
+  | SValue j :: t => OVal (match nth j codes None with Some k => cvalue tbl k | None => None end) :: run_hist tbl (codes ++ [None]) t
+  | SReset :: t => ONone :: run_hist [] (codes ++ [None]) t
+  end.
+
+Definition cobs_eqb (a b : cobs) : bool :=
+  match a, b with
+  | OCode k, OCode k' => (k =? k')%nat
+  | OVal (Some v), OVal (Some v') => lN_eqb v v'
+  | OVal None, OVal None => true
+  | ONone, ONone => true
+  | _, _ => false
+  end.
+
+Fixpoint all2 {X Y} (p : X -> Y -> bool) (a : list X) (b : list Y) : bool :=
+  match a, b with
+  | [], [] => true
+  | x :: a', y :: b' => if p x y then all2 p a' b' else false
+  | _, _ => false
+  end.
+
+Fixpoint mism_from {C} (ok : C -> bool) (i : nat) (l : list C) : list nat :=
+  match l with
+  | [] => []
+  | c :: l' => if ok c then mism_from ok (S i) l' else i :: mism_from ok (S i) l'
+  end.
+
+(* observed codes are compared up to renaming: the renderer replaces every code by its rank of first appearance since
+   the last Reset / Clone, which is what the model's codes are *)
+Definition mismatches_cls (l : list (list cstep * list cobs)) : list nat :=
+  mism_from (fun c => all2 cobs_eqb (run_hist [] [] (fst c)) (snd c)) 0 l.
+
+(** ---------- ISequenceSubChunk on one batch *)
+Section SubChunk.
+  Context {A : Type}.
+  Variable f : A -> list N.          (* the value the classifier reads from a record *)
+
+  (* a batch of more than one record: Reset, then every record is coded in batch order *)
+  Definition coded (b : list A) : list (nat * A) := combine (encode_from [] (map f b)) b.
+
+  (* "last := ordered[0].code; for v in ordered { if v.code != last { push ss; ss = new; last = v.code }; ss = append(ss, v) };
+     push ss": the maximal runs of equal codes *)
+  Fixpoint runs (l : list (nat * A)) : list (list (nat * A)) :=
+    match l with
+    | [] => []
+    | x :: t => match runs t with
+                | (y :: r) :: rs => if (fst x =? fst y)%nat then (x :: y :: r) :: rs else [x] :: (y :: r) :: rs
+                | _ => [[x]]
+                end
+    end.
+
+  (* a stable insertion sort by code (sort.Sort IS an insertion sort on at most 12 elements and is not stable beyond;
+     C06_subchunk_any_sort holds for ANY sorted rearrangement, so stability is not assumed) *)
+  Fixpoint insert_code (x : nat * A) (l : list (nat * A)) : list (nat * A) :=
+    match l with
+    | [] => [x]
+    | y :: t => if (fst x <=? fst y)%nat then x :: y :: t else y :: insert_code x t
+    end.
+  Definition sort_codes (l : list (nat * A)) : list (nat * A) := fold_right insert_code [] l.
+
+  Definition classes_of_sorted (s : list (nat * A)) : list (list A) := map (map snd) (runs s).
+  Definition subchunk (b : list A) : list (list A) := classes_of_sorted (sort_codes (coded b)).
+
+  (* the specification: [groups] of the dereplication model, for any record type *)
+  Definition groupsA (l : list A) : list (list A) :=
+    map (fun c => filter (fun r => lN_eqb c (f r)) l) (dedup (map f l)).
+End SubChunk.
+
+(* the whole function on a stream of batches: a batch of 0 or 1 record is forwarded as it is (empty batches are not
+   compared), a larger one is split into its classes.  Records are (id, value read by the classifier). *)
+Definition sub_model (bs : list (list (N * list N))) : list (list N) :=
+  flat_map (fun b => match b with [] => [] | [x] => [[fst x]] | _ => map (map fst) (subchunk snd b) end) bs.
+
+(* equality of two lists of ids as sets (ids are distinct), of two lists of classes as multisets *)
+Definition ids_eqb (a b : list N) : bool :=
+  (length a =? length b)%nat && forallb (fun x => existsb (N.eqb x) b) a.
+Fixpoint remove1_by {X} (p : X -> X -> bool) (x : X) (l : list X) : option (list X) :=
+  match l with
+  | [] => None
+  | y :: t => if p x y then Some t else match remove1_by p x t with Some t' => Some (y :: t') | None => None end
+  end.
+Fixpoint same_by {X} (p : X -> X -> bool) (a b : list X) : bool :=
+  match a with
+  | [] => match b with [] => true | _ => false end
+  | x :: a' => match remove1_by p x b with Some b' => same_by p a' b' | None => false end
+  end.
+
+Definition mismatches_sub (l : list (list (list (N * list N)) * list (list N))) : list nat :=
+  mism_from (fun c => same_by ids_eqb (sub_model (fst c)) (snd c)) 0 l.
+
+(** ---------- obiiter.MergePipe / IMergeSequenceBatch: every incoming batch is one class, merged into its first record *)
+Record mpcase := mkmp {
+  m_ds : list (N * (N * option N)); m_stats : list N; m_na : N; m_batches : list (list urec); m_ign : list N; m_outs : list uout
+}.
+Definition run_mp (c : mpcase) : list uout :=
+  map (fun r => ignore (m_ign c) (project (m_na c) [] (m_stats c) r))
+      (flat_map (merge_class (ds_of (m_ds c)) (m_na c) (m_stats c)) (m_batches c)).
+Definition mismatches_mp (l : list mpcase) : list nat :=
+  mism_from (fun c => same_outs (run_mp c) (m_outs c)) 0 l.
